@@ -8,12 +8,14 @@ namespace hv
 {
     bool g_log_enabled = true;
     long long T0 = 0;
-    FaultPlan g_faults;
+    Ctx g_default_ctx;
+    thread_local Ctx *g_ctx = &g_default_ctx;
 
     static std::string g_buf;
     void Line::emit()
     {
         if (!g_log_enabled) return;
+        if (g_ctx->exec >= 0) { s += ",\"x\":"; s += std::to_string(g_ctx->exec); }
         s += "}\n";
         g_buf += s;
         if (g_buf.size() > (1u << 16)) log_flush();
@@ -75,7 +77,7 @@ namespace hv
                 else st.pos.push_back(tok);
             }
             if (st.tok.empty()) continue;
-            if (st.tok[0] == "mode" && st.tok.size() > 1) { sc.mode = st.tok[1]; continue; }
+            if (st.tok[0] == "mode" && st.tok.size() > 1) { if (sc.mode.empty()) sc.mode = st.tok[1]; continue; }
             sc.stmts.push_back(std::move(st));
         }
         return sc;
